@@ -112,6 +112,8 @@ pub struct Profile {
     /// with 3 replicas, the last one takes no part until it joins by refresh from a random replica at
     /// a random point of the history (a late joiner), then takes part normally
     pub late_joiner: bool,
+    /// a third of the revives name two entries in one request
+    pub revive_pairs: bool,
 }
 
 fn pick_obj(rng: &mut Rng, v: &[Obj]) -> Obj {
@@ -195,7 +197,7 @@ pub fn gen_op(rng: &mut Rng, n_rep: usize, n_home: usize, p: &Profile, created: 
                 Op::DynFilter { r, grp: pick_obj(rng, &pop.of(Kind::DynGroup)), filter: rng.below(DYN_FILTERS.len() as u64) as u8 }
             }
             11 => Op::Delete { r, obj: pick_obj(rng, &pop.all()) },
-            12 => Op::Revive { r, obj: pick_obj(rng, &pop.all()) },
+            12 => Op::Revive { r, obj: pick_obj(rng, &pop.all()), also: if p.revive_pairs && rng.chance(1, 3) { Some(pick_obj(rng, &pop.all())) } else { None } },
             13 => Op::PurgeRecycled { r },
             14 => Op::PurgeTombstones { r },
             15 => Op::Reindex { r },
